@@ -16,7 +16,8 @@ from vf.tlc import MachineryError, render_cfg, require_ok, run_tlc, sany
 META = {
     "engine": "conc",
     "text": "TLC model-checks ConnIso.tla: 2-3 connections with per-connection call scripts (unary, producer and "
-            "exchange streams, empty) served by the accept loop / per-connection threads / semaphore of "
+            "exchange streams, header-less stream calls rejected by init followed by their stray input stream and a "
+            "further call, empty) served by the accept loop / per-connection threads / semaphore of "
             "_serve_socket_threaded with max_connections in {None, 1, 2}, every interleaving at park-point "
             "granularity (accept, state lock, semaphore, blocking receive, method body), against ConcLimit (served "
             "at once <= max_connections), IsoHistory (each connection's history is a prefix of its solo history), "
@@ -37,11 +38,13 @@ META = {
                  "forced on real threads/sockets by a deterministic scheduler; TLC trace validation + TLC-evaluated monitor",
 }
 
-INVS = ["ConcLimit", "IsoHistory", "NoStarvation", "Finished", "PermitsSane"]
+INVS = ["ConcLimit", "IsoHistory", "NoStarvation", "Finished", "PermitsSane", "NoLeftover"]
 P, X = ["pt", "t", "c"], ["xe", "e", "c"]
-W2_QUICK = [[P, P], [X, X], [P, X], [["u"], ["u", "u"]], [["u", "pt", "c"], ["xe", "c"]], [[], ["u"]]]
+# pr / xr: a header-less stream call rejected by init; its session's first t / e / c is a stray input stream, then a further call
+W2_STRAY = [[["pr", "t", "u"], ["u"]], [["xr", "c", "u"], ["u", "u"]], [["pr", "t", "u"], []], [["xr", "e", "u"], ["pr", "c", "u"]]]
+W2_QUICK = [[P, P], [X, X], [P, X], [["u"], ["u", "u"]], [["u", "pt", "c"], ["xe", "c"]], [[], ["u"]]] + W2_STRAY
 W3_QUICK = [[["u"], ["u"], []]]
-W2_MORE = [[["u", "u"], P], [["pt", "t", "t", "c"], ["xe", "e", "e", "c"]], [["u", "xe", "c", "u"], ["pt", "c", "u"]], [[], []],
+W2_MORE = [[["pr", "c", "pt", "c"], ["xe", "c", "u"]], [["u", "u"], P], [["pt", "t", "t", "c"], ["xe", "e", "e", "c"]], [["u", "xe", "c", "u"], ["pt", "c", "u"]], [[], []],
            [["pt", "c", "pt", "c"], ["pt", "t", "c"]]]
 W3_MORE = [[["u"], ["u"], ["u"]], [[], ["pt", "c"], ["u"]], [["pt", "c"], ["pt", "c"], ["xe", "c"]]]
 
@@ -112,16 +115,18 @@ def run(ctx: Ctx) -> None:
     for m in ("ConnIso", "ConnIsoTrace", "ConnIsoMonitor"):
         sany(wd, m)
     # ---- (1) the design
-    kw = _wrapper(wd, "MC_ConnShared", "ConnIso", _worlds([[P, P]], [0]))
-    bad = run_tlc(wd, "MC_ConnShared", render_cfg(constants={"SharedState": True}, invariants=INVS, **kw), workers=4)
-    ctx.extra["design_with_shared_stream_state_violates"] = bad.violated
-    if bad.violated != "IsoHistory":
-        raise MachineryError(f"the shared-state design should violate IsoHistory, TLC says {bad.violated} {bad.error}")
+    for name, world in (("stream_state", [P, P]), ("stray_mark", W2_STRAY[0])):
+        kw = _wrapper(wd, f"MC_ConnShared_{name}", "ConnIso", _worlds([world], [0]))
+        bad = run_tlc(wd, f"MC_ConnShared_{name}", render_cfg(constants={"SharedState": True}, invariants=INVS, **kw), workers=4)
+        ctx.extra[f"design_with_shared_{name}_violates"] = bad.violated
+        ctx.extra[f"design_with_shared_{name}_counterexample"] = [a for a, _ in bad.counterexample]
+        if bad.violated != "IsoHistory":
+            raise MachineryError(f"the shared-{name} design should violate IsoHistory, TLC says {bad.violated} {bad.error}")
     if not ctx.quick:
         kw = _wrapper(wd, "MC_ConnBig", "ConnIso", "(" + _worlds(W2_QUICK + W2_MORE, [0, 1, 2]) + " \\cup "
                       + _worlds(W3_QUICK + W3_MORE, [0, 1, 2]) + ")")
         r = run_tlc(wd, "MC_ConnBig", render_cfg(constants={"SharedState": False}, invariants=INVS, **kw), workers=8, timeout=1500)
-        ctx.add_tlc("ConnIso exhaustive: 11 two-connection and 4 three-connection script sets x max_connections {None,1,2}", r)
+        ctx.add_tlc(f"ConnIso exhaustive: {len(W2_QUICK + W2_MORE)} two-connection and {len(W3_QUICK + W3_MORE)} three-connection script sets x max_connections {{None,1,2}}", r)
         require_ok(r, "ConnIso.tla (intended design) must satisfy the C41 clauses")
     gw2 = W2_QUICK if ctx.quick else W2_QUICK + W2_MORE[:3]
     gw3 = W3_QUICK if ctx.quick else W3_QUICK + W3_MORE[:2]
@@ -145,7 +150,8 @@ def run(ctx: Ctx) -> None:
         else:
             move = (lab, s["loop"], d["loop"])
             others = tuple(sorted(zip(_items(s["cl"]), _items(s["h"]))))
-        return (move, others, s["mx"], len(s["serving"]), len(s["backlog"]))
+        # + the stray marks: "another connection's thread moves between A's rejection and A's stray input" is its own class
+        return (move, others, s["mx"], len(s["serving"]), len(s["backlog"]), _items(s["flag"]), _items(s["mid"]))
 
     paths = g.edge_cover_paths(ctx.rng, max_paths=220 if ctx.quick else 4000, key=key, max_len=200)
     ctx.extra["schedules_from_edge_cover"] = len(paths)
